@@ -226,7 +226,7 @@ func c14Churn(c *Ctx) {
 		c.Ev.Count("churn_connections_killed_by_server:"+tname, int64(run.Kills))
 		c.Ev.Count("churn_connections_accepted:"+tname, int64(run.Accepts))
 		c.Ev.Count("churn_failures_without_retry_not_judged:"+tname, int64(run.FreshFail))
-		if run.Kills == 0 {
+		if run.Kills == 0 && len(run.Late) == 0 { // (a transport that froze before the first kill is judged by its late returns)
 			c.Inconclusive("churn " + tname + ": the server never killed a connection")
 			continue
 		}
